@@ -895,10 +895,18 @@ func main() {
 	if extraTotal < 20*len(samples) {
 		extraTotal = 20 * len(samples)
 	}
+	// ops are generated and executed in batches (never all in memory at once)
 	var ops []entryOp
+	flush := func(force bool) {
+		if len(ops) > 0 && (force || len(ops) >= 150000) {
+			runEntryOps(ops)
+			ops = nil
+		}
+	}
 	for _, s := range samples {
 		ops = append(ops, opsForSample(s, extraTotal/len(samples))...)
 		run.Count("samples:" + s.entry.Name)
+		flush(false)
 	}
 	// purely random buffers for every entry point and version
 	for _, name := range entryOrder {
@@ -909,8 +917,9 @@ func main() {
 				ops = append(ops, entryOp{line: "d " + name + " " + strconv.Itoa(int(v)) + " " + hx(data), entry: e, ver: v, kind: "random-bytes", input: data})
 			}
 		}
+		flush(false)
 	}
-	runEntryOps(ops)
+	flush(true)
 	run.Set("valid_samples", len(samples))
 	finish(t0)
 }
